@@ -522,6 +522,9 @@ GROUPS = (
     (2, "transpose", "g_transpose"), (2, "reshape", "g_reshape"),
     (1, "expand", "g_expand"), (1, "squeeze", "g_squeeze"),
     (1, "broadcast", "g_broadcast"), (3, "index", "g_index"),
+    # (a sparse product is one of the node kinds the partitioner's dependency
+    # mappers treat by a method of their own)
+    (1, "csr", "g_csr"),
 )
 
 PATTERNS = ("none", "random", "ring", "ringdep", "star_out", "star_in",
